@@ -1,8 +1,10 @@
 package main
 
 import (
+	"bytes"
 	"errors"
 	"fmt"
+	"io"
 	"strings"
 	"time"
 
@@ -12,6 +14,7 @@ import (
 	thtml "go.pennock.tech/tabular/html"
 	tjson "go.pennock.tech/tabular/json"
 	"go.pennock.tech/tabular/markdown"
+	"go.pennock.tech/tabular/properties"
 	"go.pennock.tech/tabular/properties/align"
 	"go.pennock.tech/tabular/texttable"
 )
@@ -23,8 +26,8 @@ func init() {
 		ID:        "C14",
 		Level:     "model_checking",
 		Technique: "bounded exhaustive exploration of all sequences of render operations (formats, decorations, long-lived wrappers, package functions, auto styles) on the real tables; differential oracle against each target's first render on a fresh identical table, plus an observable-state snapshot compared around every render",
-		Rule: "13 tables (shapes of C10 plus user properties on every owner kind, a recorded error, size-declaring items, alignment settings) x every sequence of length <=4 (thorough <=5) over 15 render operations: long-lived csv/json/markdown/html(+row classes)/text(default)/text(ascii) wrappers reused across the sequence, " +
-			"the package-level functions (fresh wrapper each time), auto.Render for three styles, and the long-lived html wrapper re-pointed at a second table; non-trivial = sequence with >=2 renders; distinct by (table, sequence)",
+		Rule: "14 tables (shapes of C10 plus user properties on every owner kind, a recorded error, size-declaring items, alignment settings, a stale pointer item + zero-value Cell in a skipable column) x family render-sequences: every sequence of length <=4 (thorough <=5) over 15 render operations: long-lived csv/json/markdown/html(+row classes)/text(default)/text(ascii) wrappers reused across the sequence, " +
+			"the package-level functions (fresh wrapper each time), auto.Render for three styles, and the long-lived html wrapper re-pointed at a second table; family build+render: every sequence of <=4 (thorough 5) operations over 8 build operations (wide/multi-line rows, separator, cell added to an attached row, item mutated + Update, alignment settings, wider re-header) and the 15 render operations on one table - every render must equal the render of an identically built table that was never rendered before; family after-failed-render: 9 tables x 6 long-lived wrappers x every writer fault (index k x 3 modes), then Render and RenderTo on the same wrapper must give the fault-free bytes; non-trivial = sequence with >=2 renders; distinct by (table, sequence)",
 		Assumptions: []string{"no user callbacks are registered (the statement excludes failing/mutating ones)", "growth of internal callback lists by repeated Wrap is not part of the statement and is not judged",
 			"observable state = row/column counts, every cell's text and location, headers, user-set properties on table/columns/rows/cells, the error list"},
 		QuickBudget: 150 * time.Second, ThoroughBudget: 25 * time.Minute,
@@ -60,6 +63,16 @@ func c14Tables() []c10Table {
 			t.AddError(errors.New("user error"))
 			t.AddSeparator()
 			t.AllRows()[1].Add(tabular.NewCell("misuse"))
+		}},
+		c10Table{"stale pointer item (mutated after being added, no Update) and a zero-value Cell", func(t tabular.Table) {
+			t.AddHeaders("h1", "h2", "h3")
+			p := &Tsxxxx{ItemF{S: "old"}}
+			t.AddRowItems(p, "x", "y")
+			p.F.S = "changed after add, cell not updated"
+			r := tabular.NewRow()
+			r.Add(tabular.NewCell("a")).Add(tabular.Cell{}).Add(tabular.NewCell("c"))
+			t.AddRow(r)
+			t.Column(2).SetProperty(properties.Skipable, true)
 		}},
 		c10Table{"size-declaring items", func(t tabular.Table) {
 			t.AddHeaders("h1", "h2")
@@ -197,7 +210,190 @@ func c14Other() tabular.Table {
 	return t
 }
 
+// ---------------------------------------------------------------------------
+// family build+render: renders interleaved with further building; a render must not
+// influence what a later render shows after the table has changed.
+
+type c14Mut struct {
+	t   tabular.Table
+	ptr *Tsxxxx // pointer item in cell (1,2); mutated by the "mutate+Update" op
+	n   int
+}
+
+func c14NewMut() *c14Mut {
+	m := &c14Mut{t: tabular.New()}
+	p := &Tsxxxx{ItemF{S: "p0"}}
+	m.t.AddHeaders("h1", "h2")
+	m.t.AddRowItems("a", p)
+	m.ptr = p
+	return m
+}
+
+var c14BuildOps = []struct {
+	name string
+	do   func(m *c14Mut)
+}{
+	{"AddRowItems(wide)", func(m *c14Mut) { m.n++; m.t.AddRowItems(fmt.Sprintf("row%d", m.n), strings.Repeat("w", 4+m.n)) }},
+	{"AddRowItems(multi-line)", func(m *c14Mut) { m.n++; m.t.AddRowItems("x\ny\nz") }},
+	{"AddSeparator", func(m *c14Mut) { m.t.AddSeparator() }},
+	{"lastRow.Add(cell)", func(m *c14Mut) {
+		rr := m.t.AllRows()
+		for i := len(rr) - 1; i >= 0; i-- {
+			if !rr[i].IsSeparator() {
+				m.n++
+				rr[i].Add(tabular.NewCell(fmt.Sprintf("late%d", m.n)))
+				return
+			}
+		}
+	}},
+	{"mutate item + cell.Update()", func(m *c14Mut) {
+		m.n++
+		m.ptr.F.S = "mutated-" + strings.Repeat("m", m.n)
+		if c, err := m.t.CellAt(tabular.CellLocation{Row: 1, Column: 2}); err == nil {
+			c.Update()
+		}
+	}},
+	{"Column(1) align right", func(m *c14Mut) { m.t.Column(1).SetProperty(align.PropertyType, align.Right) }},
+	{"Column(0) align centre", func(m *c14Mut) { m.t.Column(0).SetProperty(align.PropertyType, align.Center) }},
+	{"AddHeaders(wider)", func(m *c14Mut) { m.n++; m.t.AddHeaders("H1-"+strings.Repeat("h", m.n), "H2", "H3") }},
+}
+
 func runC14(x *X) {
+	bops := c14BuildOps
+	rops := c14Ops()
+	depth := x.Pick(4, 5)
+	x.Explore("build+render", ExploreOpts{ShardDepth: 2, Bound: fmt.Sprintf("all sequences of <=%d operations over %d build ops and %d render ops on one table with long-lived wrappers", depth, len(bops), len(rops))}, func(c *Chooser) {
+		m := c14NewMut()
+		w := &c14Wrappers{t: m.t, other: c14Other()}
+		var builds []int
+		var seq []string
+		renders := 0
+		for step := 0; step < depth; step++ {
+			k := c.Choose(1 + len(bops) + len(rops))
+			if k == 0 {
+				break
+			}
+			x.Transition(1)
+			if k <= len(bops) {
+				op := bops[k-1]
+				c.Logf("%s", op.name)
+				op.do(m)
+				builds = append(builds, k-1)
+				seq = append(seq, op.name)
+				continue
+			}
+			op := rops[k-1-len(bops)]
+			c.Logf("%s", op.name)
+			seq = append(seq, op.name)
+			var out string
+			var err error
+			tags := []string{"op:" + op.name, "build_and_render_interleaved"}
+			if renders > 0 {
+				tags = append(tags, "rendered_before_the_table_changed")
+			}
+			if p, val, site := Safe(func() { out, err = op.run(w) }); p {
+				x.FailSite("C14.no_panic", append(tags, "panic"), site, "%s panicked: %v after %v", op.name, val, seq)
+				return
+			}
+			renders++
+			// reference: a fresh table that went through the same build operations and was never rendered
+			f := c14NewMut()
+			for _, b := range builds {
+				bops[b].do(f)
+			}
+			fw := &c14Wrappers{t: f.t, other: c14Other()}
+			var want string
+			var werr error
+			Safe(func() { want, werr = op.run(fw) })
+			x.Clause("C14.same_bytes_as_never_rendered_table")
+			if out != want || (err != nil) != (werr != nil) {
+				x.Fail("C14.same_bytes_as_never_rendered_table", tags, "%s after %v gives\n%s(err %v)\nbut a table built the same way and never rendered before gives\n%s(err %v)", op.name, seq, out, err, want, werr)
+				return
+			}
+		}
+		x.State(fmt.Sprint(seq))
+		if renders > 0 && len(builds) > 0 {
+			x.Nontrivial(fmt.Sprint(seq))
+		}
+	})
+	runC14Sequences(x)
+	runC14AfterFailure(x)
+}
+
+// family after-failed-render: a RenderTo that failed (writer fault at call k) on a long-lived wrapper
+// must not influence the next render of that wrapper.
+type c14Renderer interface {
+	Render() (string, error)
+	RenderTo(io.Writer) error
+}
+
+func runC14AfterFailure(x *X) {
+	tables := c15Tables()
+	mks := []struct {
+		name string
+		mk   func(t tabular.Table) c14Renderer
+	}{
+		{"csv", func(t tabular.Table) c14Renderer { return csv.Wrap(t) }},
+		{"json", func(t tabular.Table) c14Renderer { return tjson.Wrap(t) }},
+		{"markdown", func(t tabular.Table) c14Renderer { return markdown.Wrap(t) }},
+		{"html", func(t tabular.Table) c14Renderer { return thtml.Wrap(t).SetRowClassGenerator(rowClassGen, nil) }},
+		{"text", func(t tabular.Table) c14Renderer { return texttable.Wrap(t) }},
+		{"text:none", func(t tabular.Table) c14Renderer { tt := texttable.Wrap(t); tt.SetDecorationNamed("none"); return tt }},
+	}
+	type ref struct {
+		out   string
+		err   bool
+		calls int
+	}
+	refs := map[[2]int]ref{}
+	for ti, tb := range tables {
+		for ri, m := range mks {
+			t := tabular.New()
+			tb.build(t)
+			r := m.mk(t)
+			fw := &faultWriter{}
+			r.RenderTo(fw)
+			out, err := r.Render()
+			refs[[2]int{ti, ri}] = ref{out, err != nil, fw.calls}
+		}
+	}
+	x.Explore("after-failed-render", ExploreOpts{ShardDepth: 2, Bound: "9 tables x 6 long-lived wrappers x every Write index k x {fail from k on, fail only at k, partial write + error}; then Render() and RenderTo() on the same wrapper"}, func(c *Chooser) {
+		ti, ri := c.Choose(len(tables)), c.Choose(len(mks))
+		rf := refs[[2]int{ti, ri}]
+		if rf.calls == 0 {
+			c.Choose(1)
+			return
+		}
+		k := 1 + c.Choose(rf.calls)
+		mode := 1 + c.Choose(3)
+		t := tabular.New()
+		tables[ti].build(t)
+		r := mks[ri].mk(t)
+		c.Logf("table %q, long-lived %s wrapper: RenderTo(writer failing at call %d, mode %d); then Render()", tables[ti].name, mks[ri].name, k, mode)
+		x.Transition(2)
+		tags := []string{"op:" + mks[ri].name, "render_after_failed_render"}
+		fw := &faultWriter{mode: mode, k: k}
+		var out string
+		var err error
+		if p, val, site := Safe(func() { r.RenderTo(fw); out, err = r.Render() }); p {
+			x.FailSite("C14.no_panic", append(tags, "panic"), site, "%s panicked: %v", mks[ri].name, val)
+			return
+		}
+		x.Nontrivial(fmt.Sprint(ti, ri, k, mode))
+		x.Clause("C14.same_bytes_as_first_render")
+		if out != rf.out || (err != nil) != rf.err {
+			x.Fail("C14.same_bytes_as_first_render", tags, "after a RenderTo that failed at write %d, Render() on the same %s wrapper gives\n%q (err %v)\nbut on a fresh wrapper it gives\n%q", k, mks[ri].name, out, err, rf.out)
+			return
+		}
+		var b bytes.Buffer
+		err = r.RenderTo(&b)
+		if b.String() != rf.out && !rf.err || (err != nil) != rf.err {
+			x.Fail("C14.same_bytes_as_first_render", tags, "after a failed RenderTo and a Render, RenderTo on the same %s wrapper writes\n%q (err %v), want\n%q", mks[ri].name, b.String(), err, rf.out)
+		}
+	})
+}
+
+func runC14Sequences(x *X) {
 	tables := c14Tables()
 	ops := c14Ops()
 	type base struct {
